@@ -212,7 +212,7 @@ type commitShape struct {
 
 var c28Sig = []byte{1}
 
-func commitShapes(n int) []commitShape {
+func commitShapes(n, c int) []commitShape {
 	mk := func(committer uint32, empty bool, from, to int) *vbft.VerifCommitMsg {
 		m := &vbft.VerifCommitMsg{Committer: committer, BlockProposer: 1, BlockNum: 9, CommitForEmpty: empty}
 		if to >= from {
@@ -224,29 +224,35 @@ func commitShapes(n int) []commitShape {
 		return m
 	}
 	// the committers-only shapes are prefixes of one prebuilt list (getCommitConsensus only reads them)
-	var only, half []*vbft.VerifCommitMsg
+	var only, half, allEmpty []*vbft.VerifCommitMsg
 	for j := 2; j <= n; j++ {
 		only = append(only, mk(uint32(j), false, 1, 0))
 		half = append(half, mk(uint32(j), j%2 == 0, 1, 0))
+		allEmpty = append(allEmpty, mk(uint32(j), true, 1, 0))
 	}
-	return []commitShape{
+	prefix := func(name string, list []*vbft.VerifCommitMsg) commitShape {
+		return commitShape{name, func(k int) []*vbft.VerifCommitMsg {
+			if k < 2 {
+				return nil
+			}
+			return list[:k-1]
+		}}
+	}
+	out := []commitShape{
 		{"one-committer-naming-endorsers", func(k int) []*vbft.VerifCommitMsg {
 			if k < 2 {
 				return nil
 			}
 			return []*vbft.VerifCommitMsg{mk(2, false, 3, k)}
 		}},
-		{"committers-only", func(k int) []*vbft.VerifCommitMsg {
+		prefix("committers-only", only),
+		prefix("committers-only-half-empty", half),
+		prefix("committers-only-all-empty", allEmpty),
+		{"one-empty-committer-naming-endorsers", func(k int) []*vbft.VerifCommitMsg {
 			if k < 2 {
 				return nil
 			}
-			return only[:k-1]
-		}},
-		{"committers-only-half-empty", func(k int) []*vbft.VerifCommitMsg {
-			if k < 2 {
-				return nil
-			}
-			return half[:k-1]
+			return []*vbft.VerifCommitMsg{mk(2, true, 3, k)}
 		}},
 		{"two-committers-overlapping-endorsers", func(k int) []*vbft.VerifCommitMsg {
 			if k < 2 {
@@ -259,6 +265,46 @@ func commitShapes(n int) []commitShape {
 			return []*vbft.VerifCommitMsg{mk(2, false, 4, mid+((k-mid)/2)), mk(3, false, mid, k)}
 		}},
 	}
+	// e commit-for-empty messages ahead of plain ones: e = 1..n-1 for small n, around C above.
+	var es []int
+	if n <= 16 {
+		for e := 1; e < n; e++ {
+			es = append(es, e)
+		}
+	} else {
+		es = []int{c, c + 1, c + 2}
+	}
+	for _, e := range es {
+		e := e
+		// (a) the first e committers for proposer 1 commit for the empty block, the rest for the block
+		var firstE []*vbft.VerifCommitMsg
+		for j := 2; j <= n; j++ {
+			firstE = append(firstE, mk(uint32(j), j-2 < e, 1, 0))
+		}
+		out = append(out, prefix(fmt.Sprintf("first-%d-committers-empty", e), firstE))
+		// (b) e empty commits for e OTHER proposers (one each, from the highest peer ids that are not
+		// among the k signers) arrive first, then plain commits for proposer 1
+		var foreign []*vbft.VerifCommitMsg
+		for i := 0; i < e; i++ {
+			foreign = append(foreign, &vbft.VerifCommitMsg{Committer: uint32(n - i), BlockProposer: uint32(100000 + i), BlockNum: 9, CommitForEmpty: true})
+		}
+		out = append(out, commitShape{fmt.Sprintf("%d-empty-commits-for-other-proposers-first", e), func(k int) []*vbft.VerifCommitMsg {
+			if k < 2 {
+				return nil
+			}
+			avail := n - k // peers that are not signers for proposer 1
+			if avail > e {
+				avail = e
+			}
+			if avail < 0 {
+				avail = 0
+			}
+			msgs := make([]*vbft.VerifCommitMsg, 0, avail+k-1)
+			msgs = append(msgs, foreign[:avail]...)
+			return append(msgs, only[:k-1]...)
+		}})
+	}
+	return out
 }
 
 func commitDeclares(msgs []*vbft.VerifCommitMsg, c, n int) bool {
@@ -316,8 +362,8 @@ func leastCommitK(sh commitShape, c, n int) (q int, problem string) {
 }
 
 func c28CommitPure(t testing.TB, ev *harn.Collector, n int, cs []int) {
-	for _, sh := range commitShapes(n) {
-		for _, c := range cs {
+	for _, c := range cs {
+		for _, sh := range commitShapes(n, c) {
 			q, problem := leastCommitK(sh, c, n)
 			if problem != "" {
 				harn.Violation(t, "C28", map[string]interface{}{"N": n, "C": c, "shape": sh.name}, "getCommitConsensus N=%d C=%d shape %s: %s", n, c, sh.name, problem)
